@@ -6,6 +6,7 @@
 #include "json.h"
 #include "json_patch.h"
 #include "json_pointer.h"
+#include "json_object_private.h"
 #include <stdlib.h>
 #include <string.h>
 
@@ -380,9 +381,11 @@ static void op_setud(int a, int tok)
 		/* a constant text as the node's serialization, no destruction callback: nothing to fire later, and a deep copy
 		 * (which duplicates the text) must release its duplicate itself */
 		json_object_set_serializer(node[a], json_object_userdata_to_json_string, (void *)"7.000", NULL);
-	else if (tok & 1)
+	else if ((tok & 1) && node[a]->_to_json_string != json_object_userdata_to_json_string)
 		json_object_set_userdata(node[a], cookie_for(a, tok), ud_delete);
 	else
+		/* (also taken when the node prints a constant text through json_object_userdata_to_json_string: replacing only the
+		 * user data under that serializer would be a misuse - it reads its user data as a string) */
 		json_object_set_serializer(node[a], ser_fn, cookie_for(a, tok), ud_delete);
 	if (pending_id)
 		nulltok[pending_id] = pending_nulltok;
